@@ -291,4 +291,3 @@ Proof.
   apply U.
 Qed.
 End Inv.
-Print Assumptions C03_once.
